@@ -36,7 +36,7 @@ def mandatory_bins(tier):
     return [
         "empty_dict", "delete_key", "delete_value", "set_value", "merged_group", "multi_block", "block_size_115", "block_size_116", "block_size_117",
         "single_entry_116", "single_entry_117", "single_entry_118_oversize", "oversize_first", "oversize_middle", "oversize_last",
-        "unrepresentable_refused_or_encoded", "extra_blocks", "content_len_0", "content_len_254", "key_0", "key_ffff", "vid_0", "vid_fe", "all_fit", "set_config_replaces_older_configuration_with_other_tags",
+        "unrepresentable_refused_or_encoded", "extra_blocks", "content_len_0", "content_len_254", "key_0", "key_ffff", "vid_0", "vid_fe", "all_fit", "set_config_replaces_older_configuration_with_other_tags", "description_of_an_earlier_configuration_component_edited_by_the_caller",
     ]
 
 
@@ -163,6 +163,12 @@ def judge(ns, ctx, conf, extras, via):
             ctx.violation("declared_length_differs_from_blob_length", {"declared": comp.actual_len, "blob": len(blob)}, rp)
         if len(f.components) != 1:
             ctx.violation("set_config_on_empty_file_gives_component_count", {"n": len(f.components)}, rp)
+        if len(conf) % 5 == 2:
+            # the caller goes on editing the component it got (adds a platform filter, clears the reboot request): the tags of
+            # configuration components made LATER - in this or any other file - must not know about it
+            comp.description[0xC9] = b"\x01\x01\x00\x9b"
+            comp.description[0xC5] = b"\x00"
+            ctx.bin("description_of_an_earlier_configuration_component_edited_by_the_caller")
 
 
 def rand_conf(rng, steer=False):
